@@ -16,6 +16,22 @@ pub struct C16Family;
 pub static C16: C16Family = C16Family;
 
 const CMDS: [u8; 9] = [0x03, 0x10, 0x06, 0x01, 0x11, 0x3F, 0x3B, 0x08, 0x04];
+
+/// The CTAPHID command table as the specification gives it (independent of `TryFrom<u8>`).
+fn command_of(b: u8) -> Option<Command> {
+    Some(match b {
+        0x03 => Command::Msg,
+        0x10 => Command::Cbor,
+        0x06 => Command::Init,
+        0x01 => Command::Ping,
+        0x11 => Command::Cancel,
+        0x3F => Command::Err,
+        0x3B => Command::KeepAlive,
+        0x08 => Command::Wink,
+        0x04 => Command::Lock,
+        _ => return None,
+    })
+}
 const MAX: u32 = 7609;
 
 /// io::Write endpoint of one channel: records every write separately.
@@ -236,7 +252,9 @@ impl Family for C16Family {
             let mut msg_packets: Vec<Vec<Packet>> = Vec::new();
             for m in &ch.msgs {
                 let payload = payload_of(m);
-                let Ok(cmd) = Command::try_from(m.cmd) else { continue };
+                // the harness's own table, not the parser under test: a command the receiver's
+                // `TryFrom<u8>` forgets must still be sent (round 11, C16r11-B)
+                let Some(cmd) = command_of(m.cmd) else { continue };
                 match Message::new(ch.cid, cmd, &payload) {
                     Err(_) => {
                         if m.len > MAX {
